@@ -181,6 +181,31 @@ theorem readLineEnding_len (r : List Item) :
     · exact h1l
   | _ => exact h1l
 
+theorem skipTrailersLoop_len (k : Nat) (r : List Item) :
+    (skipTrailersLoop flatSrc k r).2.length ≤ r.length := by
+  induction k generalizing r with
+  | zero => simp [skipTrailersLoop]
+  | succ k ih =>
+    unfold skipTrailersLoop
+    have hl := readLine_len r Consts.trailerLineLimit
+    rcases h : readLine flatSrc r Consts.trailerLineLimit with ⟨res, r'⟩
+    rw [h] at hl
+    simp only at hl
+    cases res with
+    | ok line =>
+      simp only
+      split
+      · exact hl
+      · exact Nat.le_trans (ih r') hl
+    | _ => exact hl
+
+theorem chunkEnd_len (last : Bool) (r : List Item) :
+    (chunkEnd flatSrc last r).2.length ≤ r.length := by
+  unfold chunkEnd
+  cases last
+  · exact readLineEnding_len r
+  · exact skipTrailersLoop_len _ r
+
 theorem readChunkSize_len (c : Chunked (List Item)) :
     (c.readChunkSize flatSrc).2.inner.length ≤ c.inner.length := by
   unfold Chunked.readChunkSize
@@ -216,8 +241,8 @@ theorem refillData_mu (c : Chunked (List Item)) (m : Nat)
     split
     · simp
     · split
-      · have hle := readLineEnding_len r'
-        rcases h2 : readLineEnding flatSrc r' with ⟨res2, r''⟩
+      · have hle := chunkEnd_len c.reachedEof r'
+        rcases h2 : chunkEnd flatSrc c.reachedEof r' with ⟨res2, r''⟩
         rw [h2] at hle
         simp only at hle
         cases res2 with
@@ -351,9 +376,9 @@ theorem drEv_trunc (tail : List Item) (hd : Dead tail) (m : Nat) (hm : 0 < m) (s
 
 /-- draining complete chunks followed by a cut chunk / last-chunk -/
 theorem drEv_cut (tail : List Item) (hd : Dead tail) (m : Nat) (hm : 0 < m) (sz : Nat)
-    (hsz : 0 < sz) (sr ext d part : Bytes) (hs : SizeOK sr ext d.length)
-    (hq : part <+: sr ++ ext ++ [13, 10] ++ d ++ [13, 10])
-    (hql : part.length < sr.length + ext.length + d.length + 4) :
+    (hsz : 0 < sz) (sr ext d : Bytes) (ts : List Bytes) (part : Bytes) (hs : CutOK sr ext d ts)
+    (hq : part <+: cutEnc sr ext d ts)
+    (hql : part.length < (cutEnc sr ext d ts).length) :
     ∀ (fuel : Nat) (c : Chunked (List Item)) (P : Bytes) (N : Nat) (acc : Bytes),
       Rep c P (bytesI part ++ tail) → mu c ≤ N → N + 2 ≤ fuel →
       (drEv (evsC m sz fuel c) acc).Bad := by
@@ -366,7 +391,7 @@ theorem drEv_cut (tail : List Item) (hd : Dead tail) (m : Nat) (hm : 0 < m) (sz 
     · subst hP
       obtain ⟨hf, he, hlen, hr, hi⟩ := rep_nil c _ hrep
       have ht : TRep tail c ([] ++ d) :=
-        ⟨hrep.1, d, ⟨hf, he, .inr ⟨sr, ext, part, hs, hr, hi, hq, hql⟩⟩, by
+        ⟨hrep.1, d, ⟨hf, he, .inr ⟨sr, ext, ts, part, hs, hr, hi, hq, hql⟩⟩, by
           rw [(avail_eq_nil_iff c hrep.1).mpr hlen]⟩
       exact drEv_trunc tail hd m hm sz hsz (fuel+1) c _ N acc ht hmu hfuel
     · obtain ⟨out, P', h1, rfl, _, hne, hrep'⟩ := step_progress c P _ m sz hm hrep hP
@@ -411,15 +436,11 @@ theorem drain_chunked_cut (r1 : BufR) (hok : r1.Ok) (hmb : 0 < maxBuf)
   have hrep := rep_fresh cs hcs (bytesI part ++ tailItems)
   have hmu := mu_fresh (bytesI (encChunks cs) ++ (bytesI part ++ tailItems))
   rcases hp with ⟨c, hc, hlen, hpre⟩ | ⟨l, hl, hlen, hpre⟩
-  · exact drEv_cut tailItems ht maxBuf hmb sz hsz c.sizeRepr c.ext c.data part
-      (SizeOK.of_chunk hc) hpre
-      (by simp only [ChunkS.enc, List.length_append, List.length_cons, List.length_nil] at hlen; omega)
+  · exact drEv_cut tailItems ht maxBuf hmb sz hsz c.sizeRepr c.ext c.data [] part
+      (CutOK.of_chunk hc) (by rw [cutEnc_chunk]; exact hpre) (by rw [cutEnc_chunk]; exact hlen)
       _ _ _ _ [] hrep (Nat.le_of_eq hmu) (by omega)
-  · have henc : l.zeros ++ l.ext ++ [13, 10] ++ [] ++ [13, 10] = l.enc := by simp [LastS.enc]
-    exact drEv_cut tailItems ht maxBuf hmb sz hsz l.zeros l.ext [] part
-      (SizeOK.of_last hl) (by rw [henc]; exact hpre)
-      (by simp only [LastS.enc, List.length_append, List.length_cons, List.length_nil] at hlen
-          simp only [List.length_nil]; omega)
+  · exact drEv_cut tailItems ht maxBuf hmb sz hsz l.zeros l.ext [] l.trailers part
+      (CutOK.of_last hl) (by rw [cutEnc_last]; exact hpre) (by rw [cutEnc_last]; exact hlen)
       _ _ _ _ [] hrep (Nat.le_of_eq hmu) (by omega)
 
 /-- (b), (c) at the level of `Body`: a complete `Content-Length` / close-delimited body is drained
